@@ -53,6 +53,8 @@ func (sc scenario) options() *neat.Options {
 			o.MutateAddLinkProb = v
 		case "wpower":
 			o.WeightMutPower = v
+		case "mutdiff":
+			o.MutdiffCoeff = v
 		case "dropoff":
 			o.DropOffAge = int(v)
 		case "survival":
